@@ -779,6 +779,16 @@ func (t *transitiveClosure) addFieldType(field *descriptorpb.FieldDescriptorProt
 			// The field's type is excluded, so this field is also excluded.
 			return false, nil
 		}
+		if entry, ok := info.element.(*descriptorpb.DescriptorProto); ok && entry.GetOptions().GetMapEntry() {
+			// A map field cannot outlive its value type: exclude the synthetic entry message with it.
+			for _, entryField := range entry.GetField() {
+				entryTypeName := protoreflect.FullName(strings.TrimPrefix(entryField.GetTypeName(), "."))
+				if entryTypeInfo, ok := imageIndex.ByName[entryTypeName]; ok && t.elements[entryTypeInfo.element] == inclusionModeExcluded {
+					t.elements[entry] = inclusionModeExcluded
+					return false, nil
+				}
+			}
+		}
 		err := t.addElement(info.element, referrerFile, false, imageIndex, opts)
 		if err != nil {
 			return false, err
